@@ -473,6 +473,15 @@ def regenerate():
         problems.append("translate: %s" % e)
     except Exception as e:  # malformed source, unexpected shape
         problems.append("translate: %r" % e)
+    # the limits are also read straight from the declarations, so that the boundary inputs of the searches exist even when the
+    # translator no longer recognises the shape of the code around them
+    for crate in ("parser", "xpath"):
+        for root, _, files in os.walk(os.path.join(REPO, crate, "src")):
+            for f in sorted(files):
+                if f.endswith(".rs"):
+                    src = open(os.path.join(root, f), encoding="utf-8", errors="replace").read()
+                    for m in re.finditer(r"const\s+(MAX_[A-Z_]+)\s*:\s*usize\s*=\s*(\d+)\s*;", src):
+                        XML_CONSTS.setdefault(m.group(1), int(m.group(2)))
     # the reviewed grammars (tools/ref/*.json) as Lean environments, and what differs from them now
     translate.write_refs(gx, gp)
     GRAMMAR_DIFFS = {"xml": translate.grammar_diffs("xml", gx) if gx is not None else [("(untranslatable)", None, None)],
